@@ -192,19 +192,20 @@ func (v *Verifier) enumerateCases(fr *FuncRef, fc *FuncContract) []caseSpec {
 }
 
 type Verifier struct {
-	gidx      *globalIndex
-	cfgLabel  string   // non-empty when this run analyses an alternative build configuration (C17)
-	altCfgs   []string // alternative configurations that were analysed as well
-	stdConf   map[string]interface{}
-	replayTag string // sub-directory of build/replay used by this run (one per property, so concurrent checks do not collide)
-	prog      *Program
-	specs     *Specs
-	lastExec  *Exec
-	schedMode bool
-	mustFail  map[string]bool
-	bounded   map[string]interface{}
-	specCheck map[string]interface{}
-	sweep     map[string]interface{}
+	renameNotes []string // contracts adapted to renamed parameters/locals (function: old->new)
+	gidx        *globalIndex
+	cfgLabel    string   // non-empty when this run analyses an alternative build configuration (C17)
+	altCfgs     []string // alternative configurations that were analysed as well
+	stdConf     map[string]interface{}
+	replayTag   string // sub-directory of build/replay used by this run (one per property, so concurrent checks do not collide)
+	prog        *Program
+	specs       *Specs
+	lastExec    *Exec
+	schedMode   bool
+	mustFail    map[string]bool
+	bounded     map[string]interface{}
+	specCheck   map[string]interface{}
+	sweep       map[string]interface{}
 }
 
 func modeOf(name string) Mode {
@@ -247,6 +248,7 @@ func (ex *Exec) resetPath() {
 	ex.hex = nil
 	ex.bigVals = nil
 	ex.written = nil
+	ex.wordBytesOf = nil
 	ex.evalOverride = nil
 	ex.brLabel, ex.pendingLabel = "", ""
 	for k := range ex.ghost {
@@ -454,6 +456,7 @@ func (ex *Exec) runPath(cs caseSpec) {
 		if t.IsFalse() {
 			ex.preFalse = true // this aliasing/nil/length case is excluded by the precondition itself
 		}
+		ex.tightenRange(t)
 		ex.st.addFact(t, "requires")
 	}
 	ex.nPreFacts = len(ex.st.facts)
